@@ -172,6 +172,19 @@ def evaluate(c):
                     n, imp, lap = report.parse_loads(o)
                     if n != 1 or [x[0] for x in imp] != [p]:
                         viol.append(('LOAD-LISTING-' + form, 'load on pulse %d (%s form): listing %s (count %s)' % (p, form, imp, n)))
+            # the same load named once in each form on the same pulse: both attachments count (a 50 Ohm load twice = 100 Ohm)
+            if k == 0:
+                lc, dc = run(base + ['--excitation-pulse=%d' % fp, '--load=50', '--attach-load=1,%d' % p, '--attach-load=1,%d,%d' % (k + 1, b['tag'])])
+                ld_, dd = run(base + ['--excitation-pulse=%d' % fp, '--load=100', '--attach-load=1,%d' % p])
+                runs += 2
+                if lc is None or ld_ is None:
+                    viol.append(('LOAD-TWICE-REJECTED', 'pulse %d named as %d and as %d,%d: %s %s' % (p, p, k + 1, b['tag'], dc, dd)))
+                else:
+                    zc, zd = feed_z(lc), feed_z(ld_)
+                    n_, imp_, lap_ = report.parse_loads(lc)
+                    if abs(zc - zd) > 1e-9 * abs(zd) or [x[0] for x in imp_] != [p, p]:
+                        viol.append(('LOAD-TWICE', 'a 50 Ohm load attached to pulse %d as %d and as %d,%d: Z=%s, listing %s; a 100 Ohm load there gives Z=%s'
+                                     % (p, p, k + 1, b['tag'], zc, [x[0] for x in imp_], zd)))
             canon.append('%s|p%d' % (c['name'], p))
             nontriv.append(bool(special or tags != list(range(1, len(tags) + 1))))
     # --- two sources named in the tag-relative form with the SAME k on two objects (a phased array fed at the same pulse of
